@@ -306,6 +306,8 @@ class TableCacheWorld:
                 violations.append({"oracle": "constructor_failed", "incarnation": i, "state": eff,
                                    "observed": r.get("import_exc") or r.get("ctor_exc")})
                 break
+            if r.get("tables_in_use_note"):
+                stats["tables_in_use_uninspectable"] += 1
             if r.get("tables_in_use") is not None:
                 stats["tables_in_use_checked"] += 1
                 if r["tables_in_use"]:
